@@ -85,13 +85,13 @@ var c17InvalidTable = []c17Invalid{
 	{"custom-auth", map[string]interface{}{"apikey": "k"}, "custom-auth wrong key spelling"},
 	{"size_limit", map[string]interface{}{"max_request_body": 0}, "size_limit zero request limit"},
 	{"size_limit", map[string]interface{}{"max_request_body": -1}, "size_limit negative request limit"},
-	{"size_limit", map[string]interface{}{"max_request_body": "10"}, "size_limit string limit"},
+	{"size_limit", map[string]interface{}{"max_request_body": "ten"}, "size_limit limit that is not a number"},
 	{"size_limit", map[string]interface{}{"max_response_body": 0}, "size_limit zero response limit"},
 	{"size_limit", map[string]interface{}{"max_request_body": 10, "max_response_body": -5}, "size_limit negative response limit"},
 	{"size_limit", map[string]interface{}{"max_response_body": true}, "size_limit bool limit"},
 	{"gzip", nil, "gzip without config"},
 	{"gzip", map[string]interface{}{"min_size": 16, "content_types": []interface{}{"text/"}}, "gzip without level"},
-	{"gzip", map[string]interface{}{"level": "5", "min_size": 16, "content_types": []interface{}{"text/"}}, "gzip level as string"},
+	{"gzip", map[string]interface{}{"level": "fast", "min_size": 16, "content_types": []interface{}{"text/"}}, "gzip level that is not a number"},
 	{"gzip", map[string]interface{}{"level": 10, "min_size": 16, "content_types": []interface{}{"text/"}}, "gzip level 10"},
 	{"gzip", map[string]interface{}{"level": -2, "min_size": 16, "content_types": []interface{}{"text/"}}, "gzip level -2"},
 	{"gzip", map[string]interface{}{"level": 5, "content_types": []interface{}{"text/"}}, "gzip without min_size"},
